@@ -1389,7 +1389,7 @@ func c42Scenarios(r *mc.R) []*c42Scenario {
 	return []*c42Scenario{
 		{
 			// inclusion, limbo, reorgs, finality, restarts
-			name: "limbo", slots: 4, depthQ: 3, depthT: 4,
+			name: "limbo", slots: 4, depthQ: 2, depthT: 4,
 			init: []string{"add:A0", "add:A1", "add:B0"},
 			ops: mc.Pick(r,
 				[]string{"inc:A", "incx:A", "incd:A", "revert", "final", "restart"},
